@@ -208,7 +208,9 @@ theorem fundOrLocate_got3 {s s' : AState} {a : Acct} {r1 r2 fee : Bool} {f : Opt
   unfold fundOrLocate at h
   simp only [] at h
   split at h
-  · simp at h; rw [← h.1]; exact i
+  · split at h
+    · simp at h
+    simp at h; rw [← h.1]; exact i
   · repeat' split at h
     all_goals (try (simp at h))
     obtain ⟨h1, _⟩ := h
